@@ -1,6 +1,7 @@
 """Base of the db-history engines (C04, C05, C09-C12, C16-C18)."""
 import os
 import random
+import re
 import shutil
 
 import common as C
@@ -104,3 +105,90 @@ class DbEngine(BaseEngine):
             except Exception as ex:  # shrinking is best effort
                 payload["shrink_error"] = repr(ex)
         return failures, dist, nontriv, samples
+
+    # ---- arrival orders that only exist with several submitters (optional per engine) ----
+    # an engine that sets `races` provides make_race(rng) -> ((class, conc-line), meta) and judge_race(meta, out) -> Verdict.
+    # The cases run on one Store shared by real threads under the schedule controller of the verif hooks (every point a pause
+    # point, seeded choice); the oracles are FINAL-STATE oracles that hold for every linearization, so they are sound whatever
+    # the interleaving was.
+    races = None
+
+    @staticmethod
+    def race_parse(out):
+        """-> (responses {"t.k": text}, final id flags [..]) or None"""
+        if not out.startswith('conc sched='):
+            return None
+        rs = re.search(r' resp=(.*?) final=', out)
+        resp = {}
+        for part in (rs.group(1).split(' ;; ') if rs and rs.group(1) else []):
+            k, _, v = part.partition('=')
+            resp[k] = v
+        fin = re.search(r' final=ids=(\S*)', out)
+        return resp, (fin.group(1).split(',') if fin and fin.group(1) else [])
+
+    def race_precheck(self, out):
+        if not out.startswith('conc sched='):
+            return Verdict(oracle_ok=False, cls='concurrent-run-died', detail=out[:120], outcome='died')
+        if re.search(r'sched=\S*(WATCHDOG|DEADLOCK)', out):
+            return Verdict(corr_ok=False, cls='schedule-controller', detail='controller stuck', outcome='stuck')
+        return None
+
+    def run(self, rng, tier, seed):
+        res = super().run(rng, tier, seed)
+        if not self.races:
+            return res
+        rundir = os.path.join(C.CACHE, 'run', '%sc-%d' % (self.prop, os.getpid()))
+        os.makedirs(rundir, exist_ok=True)
+        env = dict(C.ENV)
+        env['VERIF_RUN_DIR'] = rundir
+        try:
+            cases = [self.make_race(rng) for _ in range(self.races['quick' if tier == 'quick' else 'thorough'])]
+            outs = C.run_lines(C.harness_exe('debug'), [c[0][1] for c in cases], env=env, shards=8)
+        finally:
+            shutil.rmtree(rundir, ignore_errors=True)
+        dist = res['stats']['distribution']
+        scheds = set()
+        for ((gcls, line), meta), o in zip(cases, outs):
+            try:
+                v = self.race_precheck(o) or self.judge_race(meta, o)
+            except Exception as ex:
+                v = Verdict(corr_ok=False, cls='unparsable-output', detail=repr(ex), outcome='unparsable')
+            key = '%s/%s' % (gcls, v.outcome)
+            dist[key] = dist.get(key, 0) + 1
+            m = re.search(r'sched=(\S*)', o)
+            scheds.add(m.group(1) if m else line)
+            payload = {'kind': 'schedule', 'seed': seed, 'case': line, 'class': gcls, 'impl': o[:4000], 'meta': meta}
+            if not v.oracle_ok:
+                payload['oracle'] = v.detail
+                res['failures'].append(('oracle', v.cls, payload))
+            elif not v.corr_ok:
+                payload['correspondence'] = v.detail
+                res['failures'].append(('corr', v.cls, payload))
+        res['stats']['evaluations'] += len(cases)
+        res['stats']['distinct_nontrivial'] += len(scheds)
+        res['stats'].setdefault('extra', {})['multi_submitter_races'] = len(cases)
+        res['failures'].sort(key=lambda f: (f[0] != 'oracle', len(f[2]['case'])))
+        return res
+
+    def replay(self, payload):
+        if payload.get('kind') != 'schedule':
+            return super().replay(payload)
+        rundir = os.path.join(C.CACHE, 'run', '%sr-%d' % (self.prop, os.getpid()))
+        os.makedirs(rundir, exist_ok=True)
+        env = dict(C.ENV)
+        env['VERIF_RUN_DIR'] = rundir
+        C.build_harness(self.profiles)
+        out = C.run_lines(C.harness_exe('debug'), [payload['case']], env=env)
+        shutil.rmtree(rundir, ignore_errors=True)
+        v = self.race_precheck(out[0]) or self.judge_race(payload.get('meta', {}), out[0])
+        print('case: %s' % payload['case'][:1500])
+        print('impl (this run; the schedule is re-derived from the same seed): %s' % out[0][:3000])
+        print('oracle: %s %s' % ('ok' if v.oracle_ok else 'FAILS', v.detail))
+        return 0 if (v.oracle_ok and v.corr_ok) else 1
+
+    @staticmethod
+    def race_line(sub, g, setup, progs, obs_ids):
+        obs = 'obs %s L0' % C.tl([C.tb(i) for i in obs_ids])
+        names = C.tl(C.tb(n) for n in g.names)
+        return 'conc %s %s %s ; S %s%s ; F ; %s' % (names, C.tn(sub.getrandbits(40)), C.tn(sub.choice([50, 150, 300, 600])),
+                                                   ''.join(' ; ' + o for o in setup), ''.join(' ; T' + ''.join(' ; ' + o for o in p) for p in progs), obs)
